@@ -69,7 +69,31 @@ func inlineHelper(e Event) ([]string, bool) {
 		return nil, false
 	}
 	callee := cs.Common().StaticCallee()
-	if callee == nil || p.PkgShort(callee) != "db" || callee.Parent() != nil || len(loopHeaders(callee)) > 0 || len(callee.Blocks) == 0 {
+	isLit := false
+	if callee == nil && e.Target != "" && cs.Parent() != nil {
+		// a call through a function value that is, on this path, a function literal of the enclosing function
+		// (`descend := func(p indexBtree) (bool, error) { return p.IterMin(r-1, db, key, cb) }`): its single clean
+		// sequence, with what it captured named as the enclosing function names it
+		outer := cs.Parent()
+		for outer.Parent() != nil {
+			outer = outer.Parent()
+		}
+		var find func(f *ssa.Function) *ssa.Function
+		find = func(f *ssa.Function) *ssa.Function {
+			for _, a := range f.AnonFuncs {
+				if a.Name() == e.Target {
+					return a
+				}
+				if g := find(a); g != nil {
+					return g
+				}
+			}
+			return nil
+		}
+		callee = find(outer)
+		isLit = callee != nil
+	}
+	if callee == nil || p.PkgShort(callee) != "db" || (callee.Parent() != nil && !isLit) || len(loopHeaders(callee)) > 0 || len(callee.Blocks) == 0 {
 		return nil, false
 	}
 	// methods of the page types are traversal levels, not helpers
@@ -100,6 +124,22 @@ func inlineHelper(e Event) ([]string, bool) {
 	}
 	if !found {
 		return nil, false
+	}
+	if isLit {
+		// captured parameters of the enclosing function
+		top := callee
+		for top.Parent() != nil {
+			top = top.Parent()
+		}
+		for _, fv := range callee.FreeVars {
+			for _, prm := range top.Params {
+				if prm.Name() == fv.Name() {
+					for k := range seq {
+						seq[k] = replaceTerm(seq[k], "fv:"+fv.Name(), "p:"+prm.Name())
+					}
+				}
+			}
+		}
 	}
 	// substitute parameters by the call's argument terms
 	for i, prm := range callee.Params {
@@ -233,8 +273,6 @@ func travSpecs() []travSpec {
 			whole: []string{
 				j(searchL, openI("p:l.rightmost"), tIterMI),
 				j(searchL, openI(tail+".left"), tIterMI, emitI(tail+".payload"), openI("p:l.rightmost"), tIterI),
-				// the flag is opaque after the first iteration in the enumeration; TRAV-flag decides its value
-				j(searchL, openI(tail+".left"), tIterMI, emitI(tail+".payload"), openI("p:l.rightmost"), tIterMI),
 			},
 			body: []string{
 				j(openI(tail+".left"), tIterI, emitI(tail+".payload")),
@@ -396,7 +434,8 @@ func runTrav(c *Ctx) {
 			continue
 		}
 		// the generic iteration
-		h, bpaths, ok := bodyPaths(p, fn, t)
+		// an iteration reached through the back-edge; the first iteration is part of the complete passes above
+		h, bpaths, ok := bodyPathsOpt(p, fn, t, true)
 		if !ok {
 			c.Undecided(sp.fn+" body", fn.Pos(), "cannot enumerate the loop body")
 			continue
@@ -444,124 +483,68 @@ func bracket2(ss []string) []string {
 
 func runTravFlag(c *Ctx) {
 	p := c.P
+	travProg = p
 	fn := findFn(p, "(*db.indexInterior).IterMin")
 	if fn == nil {
 		c.Undecided("anchor", token.NoPos, "indexInterior.IterMin not found")
 		return
 	}
 	hs := loopHeaders(fn)
+	var bind map[*ssa.Parameter]ssa.Value
+	if len(hs) == 0 {
+		if h, b := loopDelegate(fn); h != nil {
+			hs, bind = loopHeaders(h), b
+		}
+	}
 	if len(hs) != 1 {
-		c.Undecided("loop", fn.Pos(), "expected one loop")
+		c.Undecided("loop", fn.Pos(), "expected one loop over the cells, found %d", len(hs))
 		return
 	}
 	h := hs[0]
-	// the flag: a bool phi in the header with edges (false from outside, true from the latches)
-	var flag *ssa.Phi
-	for _, in := range h.Instrs {
-		if ph, ok := in.(*ssa.Phi); ok {
-			if _, isB := constBool(ph.Edges[0]); isB || func() bool { _, b := constBool(ph.Edges[len(ph.Edges)-1]); return b }() {
-				flag = ph
-			}
-		}
-	}
-	if flag == nil {
-		c.Fail("flag", h.Instrs[0].Pos(), "no first-child flag: either every child is searched with IterMin (entries of later children below the key's position are skipped) or every child is scanned")
+	// Which child is searched and which is scanned is TRAV's business for the first cell (its complete passes: no cell
+	// ⇒ the right-most child is searched; one cell ⇒ that cell's child is searched and the right-most scanned). Here:
+	// an iteration that was reached through the back-edge — whatever tells it apart from the first, a flag, the
+	// index, a function value that was replaced — scans, and so does the right-most child after it.
+	t := &Termer{P: p}
+	paths, ok := EnumLits(h, 0, TabOpts{Termer: t, EventOf: callEvents(p), InitBind: bind, StartHavoc: true,
+		Stop: func(in ssa.Instruction, ps *pathState) bool { return in == h.Instrs[0] && len(ps.Path) > 1 }})
+	if !ok {
+		c.Undecided("later iterations", fn.Pos(), "too many paths")
 		return
 	}
-	// the flag has one constant value on entry to the loop and the opposite one after any iteration (its polarity
-	// — `useIter` or `first` — is the author's choice)
-	good := true
-	var entryV, latchV bool
-	haveE, haveL := false, false
-	for i, pr := range h.Preds {
-		v, isC := constBool(flag.Edges[i])
-		if !isC {
-			good = false
-			continue
-		}
-		if h.Dominates(pr) { // back-edge
-			if haveL && latchV != v {
-				good = false
-			}
-			latchV, haveL = v, true
-		} else {
-			if haveE && entryV != v {
-				good = false
-			}
-			entryV, haveE = v, true
-		}
-	}
-	if !haveE || !haveL || entryV == latchV {
-		good = false
-	}
-	c.Check(good, "flag edges", flag.Pos(), "the flag has one value on entry to the loop and the opposite value after any iteration")
-	if !good {
-		return
-	}
-	// which call is guarded by which outcome
-	t := &Termer{P: p, Custom: func(v ssa.Value, ps *pathState) (string, bool) {
-		if v == ssa.Value(flag) {
-			return "firstChildFlag", true
-		}
-		return "", false
-	}}
-	flagIs := func(lp *LPath, v bool) bool {
-		return lp.Has("firstChildFlag", token.EQL, "true", v) || lp.Has("firstChildFlag", token.EQL, "false", !v) ||
-			lp.Has("firstChildFlag", token.NEQ, "true", !v) || lp.Has("firstChildFlag", token.NEQ, "false", v)
-	}
-	_, bpaths, _ := bodyPaths(p, fn, t)
-	ok2 := true
-	n := 0
-	for _, lp := range bpaths {
-		for _, e := range lp.Events {
-			if e.Kind != "call" {
-				continue
-			}
-			if e.Name == "db.indexBtree.Iter" {
-				n++
-				if !flagIs(lp, latchV) {
-					ok2 = false
-				}
-			}
-			if e.Name == "db.indexBtree.IterMin" {
-				n++
-				if !flagIs(lp, entryV) {
-					ok2 = false
-				}
-			}
-		}
-	}
-	// after the loop
-	paths, _ := EnumLits(fn.Blocks[0], 0, TabOpts{Termer: t, EventOf: callEvents(p)})
+	nBody, nExit := 0, 0
+	badBody, badExit := "", ""
 	for _, lp := range paths {
-		if lp.Exit == nil || !cleanPath(lp) {
+		if !cleanPath(lp) || len(lp.Unknown) > 0 {
+			if len(lp.Unknown) > 0 && cleanPath(lp) {
+				badBody = fmt.Sprintf("depends on a condition the rule cannot interpret: %v", lp.Unknown)
+			}
 			continue
 		}
-		var last Event
-		for _, e := range lp.Events {
-			if e.Kind == "call" {
-				last = e
+		seq := normSeq(travSeq(lp))
+		searched := strings.Contains(seq, "db.indexBtree.IterMin(")
+		scanned := strings.Contains(seq, "db.indexBtree.Iter(")
+		switch {
+		case lp.Stop != nil:
+			nBody++
+			if searched || !scanned {
+				badBody = "[" + seq + "]"
 			}
-		}
-		visited := false
-		for _, e := range lp.Events {
-			if e.Kind == "call" && e.Name == "db.addOverflow" {
-				visited = true
-			}
-		}
-		// with one concrete iteration the flag phi is opaque at the exit: the literal tells which branch
-		switch last.Name {
-		case "db.indexBtree.Iter":
-			if !visited && !flagIs(lp, latchV) {
-				ok2 = false
-			}
-		case "db.indexBtree.IterMin":
-			if visited && !flagIs(lp, entryV) {
-				ok2 = false
+		case lp.Exit != nil:
+			nExit++
+			if searched || !scanned {
+				badExit = "[" + seq + "]"
 			}
 		}
 	}
-	c.Check(ok2 && n >= 2, "flag use", fn.Pos(), "children are entered with IterMin(key) exactly while the flag has its entry value (the first child) and with Iter afterwards — in the loop and for the right-most child")
+	c.Check(nBody > 0 && badBody == "", "later children are scanned", h.Instrs[0].Pos(), "%s", map[bool]string{
+		true:  fmt.Sprintf("in an iteration reached through the back-edge the cell's child is entered with Iter, never with IterMin(key) (%d paths)", nBody),
+		false: "a cell after the first has its child entered as " + orStr(badBody, "(no path)") + ": with IterMin(key) the entries of that child which sort below the key's position are skipped although the scan is already past the key; without Iter the child is not visited",
+	}[nBody > 0 && badBody == ""])
+	c.Check(nExit > 0 && badExit == "", "right-most child after a cell is scanned", h.Instrs[0].Pos(), "%s", map[bool]string{
+		true:  fmt.Sprintf("when at least one cell was visited the right-most child is entered with Iter (%d paths)", nExit),
+		false: "after a cell was visited the right-most child is entered as " + orStr(badExit, "(no path)"),
+	}[nExit > 0 && badExit == ""])
 }
 
 func runSrch(c *Ctx) {
